@@ -487,6 +487,37 @@ func (c *Ctx) sliceSinkIsSorted(fn *ssa.Function, phi *ssa.Phi, li loopInfo) (bo
 			if _, isDbg := ins.(*ssa.DebugRef); isDbg {
 				continue
 			}
+			if ret, isRet := ins.(*ssa.Return); isRet && fn.Object() != nil && !fn.Object().Exported() && len(c.G.In[fn]) > 0 {
+				// an unexported helper hands the slice back: every caller must consume it order-insensitively
+				idx := -1
+				for i, rv := range ret.Results {
+					if rv == ssa.Value(phi) {
+						idx = i
+					}
+				}
+				allOK := idx >= 0
+				for _, e := range c.G.In[fn] {
+					cs, isCall := e.Site.(*ssa.Call)
+					if !isCall || cs.Call.StaticCallee() != fn {
+						allOK = false
+						continue
+					}
+					var rv ssa.Value = cs
+					if fn.Signature.Results().Len() > 1 {
+						rv = extractOf(cs, idx)
+					}
+					if rv == nil {
+						continue
+					}
+					if ok, why := c.valueConsumedOrderInsensitively(e.Caller, rv); !ok {
+						return false, "it is returned to " + core.FuncName(e.Caller) + ", where " + why
+					}
+				}
+				if allOK {
+					sinks++
+					continue
+				}
+			}
 			return false, fmt.Sprintf("it is used by %T after the loop", ins)
 		}
 		f := call.Call.StaticCallee()
@@ -545,7 +576,59 @@ func (c *Ctx) namesEmbedKey(li loopInfo) bool {
 			}
 		}
 	}
-	return n > 0
+	if n > 0 {
+		return true
+	}
+	// the entry is built by a repository helper that receives the key
+	for b := range li.body {
+		for _, ins := range b.Instrs {
+			call, ok := ins.(*ssa.Call)
+			if !ok {
+				continue
+			}
+			h := call.Call.StaticCallee()
+			if h == nil || len(h.Blocks) == 0 {
+				continue
+			}
+			if _, isRepo := c.P.PkgOf(h); !isRepo {
+				continue
+			}
+			for i, a := range call.Call.Args {
+				if a != key || i >= len(h.Params) {
+					continue
+				}
+				hp := ssa.Value(h.Params[i])
+				hn, good := 0, true
+				for _, hc := range core.CallsIn(h) {
+					ec, ok := hc.(*ssa.Call)
+					if !ok || !isEntryCtor(ec.Call.StaticCallee()) {
+						continue
+					}
+					hn++
+					name := ec.Call.Args[0]
+					if name == hp {
+						continue
+					}
+					nc, ok := name.(*ssa.Call)
+					uses := false
+					if ok {
+						for _, na := range nc.Call.Args {
+							if na == hp {
+								uses = true
+							}
+						}
+					}
+					if !uses {
+						good = false
+					}
+				}
+				if hn > 0 && good {
+					return true
+				}
+			}
+		}
+	}
+	return false
 }
 
 // callOrderInsensitive classifies one call inside a range loop.
@@ -893,4 +976,39 @@ func isRangeUse(ins ssa.Instruction) bool {
 		return true
 	}
 	return false
+}
+
+// valueConsumedOrderInsensitively: slice value v of function fn is only re-iterated by order-insensitive range loops or
+// handed to dag-pb storing builders.
+func (c *Ctx) valueConsumedOrderInsensitively(fn *ssa.Function, v ssa.Value) (bool, string) {
+	uses := 0
+	for _, ref := range *v.Referrers() {
+		if _, isDbg := ref.(*ssa.DebugRef); isDbg {
+			continue
+		}
+		if isRangeUse(ref) {
+			for _, l2 := range rangeLoops(fn) {
+				if l2.kind == "slice" && l2.rng == v {
+					if ok, why := c.orderInsensitive(l2); !ok {
+						return false, "the loop that consumes it is order-dependent: " + why
+					}
+					uses++
+				}
+			}
+			continue
+		}
+		if call, ok := ref.(*ssa.Call); ok {
+			if b, isB := call.Call.Value.(*ssa.Builtin); isB && (b.Name() == "len" || b.Name() == "cap") {
+				continue
+			}
+			f := call.Call.StaticCallee()
+			if f != nil && (len(core.StoreSites(f)) > 0 || c.reachesDagpbStore(f)) {
+				uses++
+				continue
+			}
+			return false, "it is handed to " + calleeShort(call)
+		}
+		return false, fmt.Sprintf("it is used by %T", ref)
+	}
+	return uses > 0, "it is not consumed"
 }
